@@ -57,7 +57,7 @@ Lemma group_sim_update phi cn i ndi nd' g g' :
   nth_error cn i = Some ndi -> same_class (cn_body ndi) (cn_body nd') ->
   group_sim phi cn g g' -> group_sim phi (RowSem.update cn i nd') g g'.
 Proof.
-  intros Hi Hc H. destruct H as [k cls c rt nd Hk Hn Hcl|ps|ps k k1 Hk|ms]; try (constructor; assumption).
+  intros Hi Hc H. destruct H as [k cls c rt nd Hk Hn Hcl|ps Hps|ps k k1 Hps Hk|ms]; try (constructor; assumption).
   destruct (Nat.eq_dec (fst c) i) as [E|N].
   - rewrite E in Hn. assert (nd = ndi) by congruence. subst nd.
     eapply GS_row; [exact Hk|rewrite E; eapply update_nth_same; eauto|eapply class_ok_same; eauto].
@@ -69,7 +69,7 @@ Lemma group_sim_mono phi phi' cn cn' g g' :
   (forall i nd, nth_error cn i = Some nd -> nth_error cn' i = Some nd) ->
   group_sim phi cn g g' -> group_sim phi' cn' g g'.
 Proof.
-  intros Hp Hc H. destruct H as [k cls c rt nd Hk Hn Hcl|ps|ps k k1 Hk|ms]; try (constructor; auto).
+  intros Hp Hc H. destruct H as [k cls c rt nd Hk Hn Hcl|ps Hps|ps k k1 Hps Hk|ms]; try (constructor; auto).
   eapply GS_row; eauto.
 Qed.
 
@@ -258,10 +258,12 @@ Proof.
       apply group_sim_update with (ndi := nd) (i := k1) (nd' := nd1) in Hab; [|exact Hk1|exact Hcl].
       assert (Hak : ~ In k (grow_node a)).
       { eapply (flat_map_NoDup_idx grow_node (s_groups sr) g i (GRow k cls) a k); eauto. left. reflexivity. }
-      destruct Hab as [k0 cls0 c0 rt0 nd0 Hk0 Hn0 Hcl0|ps|ps k0 k1' Hk0|ms]; try constructor.
+      destruct Hab as [k0 cls0 c0 rt0 nd0 Hk0 Hn0 Hcl0|ps Hps|ps k0 k1' Hps Hk0|ms].
       * eapply GS_row; [unfold phi'; rewrite update_nth_other; [exact Hk0|intros ->; apply Hak; left; reflexivity]
                        |apply nth_error_app_l; exact Hn0|exact Hcl0].
-      * unfold phi'. rewrite update_nth_other; [exact Hk0|intros ->; apply Hak; left; reflexivity].
+      * constructor. exact Hps.
+      * constructor; [exact Hps|]. unfold phi'. rewrite update_nth_other; [exact Hk0|intros ->; apply Hak; left; reflexivity].
+      * constructor.
   - exact Hginj.
   - exact Hrm.
   - exact Hst.
